@@ -81,7 +81,8 @@ def C07(ctx):
     ctx.rules.append('split: the providers of every digraph (n=3; sample of n=4 in thorough) distributed over two sets joined by a set without providers of its own; '
                      'scaling: diamond lattices of depth 10/20/40 (2^40 paths) and chains of depth 50/150, with and without a back edge, each under a 20 s timeout (normal: well under 1 s)')
     ctx.rules.append('random digraphs on 5 and 6 providers (300 / 3000 edge sets of about n+2 edges, seed-driven): cycles entered from outside at depth >= 3 through nodes with several parameters')
-    rnd = ctx.export('FamilyGRand(p, 5, %d, 7)' % (200 if ctx.quick else 2000)) + ctx.export('FamilyGRand(p, 6, %d, 8)' % (150 if ctx.quick else 1500))
+    rnd = ctx.export('FamilyGRand(p, 5, %d, 7)' % (200 if ctx.quick else 2000)) + ctx.export('FamilyGRand(p, 6, %d, 8)' % (150 if ctx.quick else 1500)) \
+        + ctx.export('FamilyLasso(p)')      # paths of 0..3 providers into cycles of 1..3, one provider with a second parameter before/after the continuing one
     ctx.design_analyze(rnd, limit=150 if ctx.quick else 600, label='random digraphs n=5,6 ', free_roots=False)
     ctx.run(rnd, nontrivial=cyc, runtime=False)
     sp = ctx.export('FamilyGSplit(p, 3)', pre_sample=300 if ctx.quick else None)
